@@ -3,7 +3,7 @@
 # /verif/seeded/REGRESSION.log: caught with a failing input / only as a broken tie / missed.
 out=/verif/seeded/REGRESSION.log
 : > $out
-for d in /verif/seeded/C??-?; do
+for d in ${SEEDS:-/verif/seeded/C??-?}; do
   n=$(basename $d); p=${n%%-*}
   git -C /repo apply $d/patch.diff 2>/dev/null || { echo "$n: PATCH DOES NOT APPLY" >> $out; continue; }
   res=$(cd /verif && ./check $p --tier quick 2>&1 | grep "^VIOLATION" )
